@@ -132,7 +132,7 @@ def _match(h, min_teams, max_teams, lim=None, tau0=False):
             act = list(range(len(h.players)))
             h.retired.clear()
         order = draw(st.permutations(act))
-        n = draw(st.integers(min_teams, min(max_teams, len(order))))
+        n = draw(st.integers(min(min_teams, len(order)), min(max_teams, len(order))))  # retirements may leave fewer active players than the rule prefers
         # cut `order` into n non-empty teams (sizes 1..3)
         sizes = []
         left = len(order)
